@@ -253,3 +253,8 @@ package massdb_v1
 //@ func (*MassDBV1).StopPlot$1
 //@   attr modular, lockinv
 //@   requires lock-entry: mdb != nil && !held[addr(mdb.stopLock)]
+
+// ---- loading (C11): a file is opened as a table only if it carries the native file code and exactly this format
+// version (checked before anything else of the header is used)
+//@ func loadHashMap
+//@   assert-at call ParsePubKey only-a-file-with-the-native-code-and-this-version-is-loaded: lastresult("Equal") && lastresult("Uint64#1") == dbVersion
